@@ -1250,4 +1250,62 @@ theorem rules_of_validSchema {doc : Doc} {q : Name} {qd : TypeDef} (hblocks : do
     exact hv.rootFieldsAreEdges qd hqd.1 (by simp [hblocks, hqd.2]) f hf
 
 
+/-! ### `Schema::new` under the guard -/
+
+/-- What `NoKnownSchemaTrigger` says, unpacked. -/
+theorem guard_unpack {doc : Doc} (h : NoKnownSchemaTrigger doc = true) :
+    (∃ q qd, doc.schemaBlocks = [q] ∧ findType doc.types q = some qd ∧ qd.isInterface = false) ∧
+    LoopGuard doc ∧ FieldsClean doc.types := by
+  simp only [NoKnownSchemaTrigger, Bool.and_eq_true, List.all_eq_true, Bool.not_eq_true',
+    nodupNames_iff, List.isEmpty_iff] at h
+  obtain ⟨⟨⟨⟨⟨⟨h1, h2⟩, h3⟩, h4⟩, h5⟩, h6⟩, h7⟩ := h
+  refine ⟨?_, ⟨?_, h2, h3, h4, h5, h6⟩, h7⟩
+  · cases hb : doc.schemaBlocks with
+    | nil => simp [hb] at h1
+    | cons q rest =>
+      cases rest with
+      | cons _ _ => simp [hb] at h1
+      | nil =>
+        simp only [hb] at h1
+        cases hf : doc.types.find? (fun t => t.name == q) with
+        | none => simp [hf] at h1
+        | some qd =>
+          simp only [hf, Option.any_some, Bool.not_eq_true'] at h1
+          exact ⟨q, qd, rfl, hf, h1⟩
+  · rcases hb : doc.schemaBlocks with _ | ⟨q, _ | ⟨q2, rest⟩⟩ <;> simp [hb] at h1 ⊢
+
+/-- Under the guard `Schema::new` does not panic, and it accepts iff the type and field names are
+distinct and all checked rules hold. -/
+theorem schemaNew_spec {doc : Doc} (h : NoKnownSchemaTrigger doc = true) :
+    ∃ q qd, doc.schemaBlocks = [q] ∧ findType doc.types q = some qd ∧ qd.isInterface = false ∧
+      isBuiltin q = false ∧
+      ((∃ s, Schema.new doc = .ok (.ok s) ∧ Distinct doc.types ∧ CheckedRules doc.types qd) ∨
+       (∃ es, Schema.new doc = .ok (.error es) ∧ ¬ (Distinct doc.types ∧ CheckedRules doc.types qd))) := by
+  obtain ⟨⟨q, qd, hblocks, hq, hqi⟩, hg, hc⟩ := guard_unpack h
+  have hqd := findType_some hq
+  have hqb : isBuiltin q = false := by rw [← hqd.2]; exact hg.typesNotBuiltin qd hqd.1
+  refine ⟨q, qd, hblocks, hq, hqi, hqb, ?_⟩
+  have hloop := runLoop_spec doc [] {} ⟨rfl, rfl, rfl, rfl⟩ (by simpa using hg)
+    ⟨by simp [Doc.types], by simp [Doc.types]⟩
+  simp only [List.nil_append] at hloop
+  unfold Schema.new
+  rcases hloop with ⟨e, hl, hnd⟩ | ⟨st, hl, hst, hd⟩
+  · simp only [hl]
+    exact .inr ⟨[e], rfl, fun h' => hnd h'.1⟩
+  · simp only [hl]
+    have hs : st.schema = some q := by rw [hst.schema, hblocks]; rfl
+    simp only [hs, hst.vertexTypes, hq, hqi, Bool.false_eq_true, if_false]
+    obtain ⟨errors, origins, hrun, hsome, hiff⟩ := runChecks_spec hd hc hqd.1
+    simp only [hrun]
+    cases errors with
+    | nil =>
+      have := hsome rfl
+      obtain ⟨o, ho⟩ := Option.isSome_iff_exists.mp this
+      simp only [ho, List.isEmpty_nil, if_true]
+      exact .inl ⟨_, rfl, hd, hiff.mp rfl⟩
+    | cons e es =>
+      simp only [List.isEmpty_cons, Bool.false_eq_true, if_false]
+      exact .inr ⟨_, rfl, fun h' => by simpa using hiff.mpr h'.2⟩
+
+
 end TF.SchemaDoc
